@@ -111,4 +111,13 @@ CHECKS = {
         "tests": [{"name": "TestC15", "quick": 1500, "thorough": 48000}],
         "assumptions": COMMON_ASSUMPTIONS + ["bitmap representation equality is judged on roaring's serialised bytes"],
     },
+    "C19": {
+        "level": "fault_enumeration",
+        "tests": [{"name": "TestC19Small", "quick": 120, "thorough": 3840, "min_per_shard": 20}, {"name": "TestC19Blocks", "quick": 10, "thorough": 320, "min_per_shard": 5},
+                  {"name": "TestC19Regress", "quick": 0}],
+        "assumptions": ["storage faults are injected by swapping the unexported io.ReaderAt inside segment.Data (reflect+unsafe, self-tested at start-up) before ice.Load; every ReadAt from index k on fails",
+                        "faults during ice.Load itself are not injected (Load is not a read call on a segment)",
+                        "a call that does not return within 30 s is a violation only when its goroutine is blocked in sync.(*Mutex).Lock under an ice frame; anything else is reported as inconclusive",
+                        COMMON_ASSUMPTIONS[0]],
+    },
 }
